@@ -28,6 +28,65 @@ def _names(e):
     return {n.id for n in ast.walk(e) if isinstance(n, ast.Name)}
 
 
+def _attr_paths(e):
+    """attribute paths rooted at a name: {'field.asset.name', ...} (maximal chains only) and bare names."""
+    paths, bare = set(), set()
+    covered = set()
+    for n in ast.walk(e):
+        if isinstance(n, ast.Attribute):
+            cur, parts = n, []
+            while isinstance(cur, ast.Attribute):
+                parts.append(cur.attr)
+                cur = cur.value
+            if isinstance(cur, ast.Name):
+                paths.add(cur.id + '.' + '.'.join(reversed(parts)))
+                x = n.value
+                while isinstance(x, ast.Attribute):
+                    covered.add(id(x))
+                    x = x.value
+                covered.add(id(x))
+    for n in ast.walk(e):
+        if isinstance(n, ast.Name) and id(n) not in covered:
+            bare.add(n.id)
+    # drop proper prefixes
+    paths = {p for p in paths if not any(q != p and q.startswith(p + '.') for q in paths)}
+    return paths, bare
+
+
+def _partial_key_miss(f, st, cache, kexpr, vexpr, node, cfg):
+    kpaths, kbare = _attr_paths(kexpr)
+    if not kpaths:
+        return []
+    roots = {p.split('.')[0] for p in kpaths} - kbare
+    if not roots:
+        return []
+    # value: the stored expression plus later stores into the cached entry  C[K][..] = e  and their guards
+    exprs = [vexpr]
+    ctext, ktext = stmt_text(cache), stmt_text(st.targets[0].slice)
+    for n in own_nodes(f.node):
+        if isinstance(n, ast.Assign) and len(n.targets) == 1 and isinstance(n.targets[0], ast.Subscript):
+            t = n.targets[0]
+            inner = t.value
+            while isinstance(inner, ast.Subscript):
+                if stmt_text(inner.value) == ctext and stmt_text(inner.slice) == ktext and n is not st:
+                    exprs.append(n.value)
+                    gn = cfg.node_of(n)
+                    for g in cfg.nodes:
+                        if g.kind == 'if' and gn is not None and cfg.dominates(g, gn) and g is not gn \
+                                and cfg.dominates(node, g):
+                            exprs.append(g.ast.test)
+                    break
+                inner = inner.value
+    miss = set()
+    for e in exprs:
+        vp, vb = _attr_paths(e)
+        for p in vp:
+            r = p.split('.')[0]
+            if r in roots and not any(p == k or p.startswith(k + '.') for k in kpaths):
+                miss.add(p)
+    return sorted(miss)
+
+
 def analyse(prog, ctx_cfg) -> list:
     """-> list of (func, store stmt, cache text, key expr, missing names, total deps)"""
     out = []
@@ -71,6 +130,12 @@ def analyse(prog, ctx_cfg) -> list:
                     vexpr = cands[0]
                 elif len(defs) == 1 and defs[0].kind == 'stmt' and isinstance(defs[0].ast, ast.Assign):
                     vexpr = defs[0].ast.value
+            # (p) the key is built from attribute paths of an object (x.a, x.b.c) rather than from x itself: then
+            # every attribute path of x the stored value is computed from must be part of the key
+            partial = _partial_key_miss(f, st, cache, kexpr, vexpr, node, cfg)
+            if partial:
+                out.append((f, st, ctext, kexpr, partial, partial))
+                continue
             computed = any(isinstance(x, ast.Call) for x in ast.walk(vexpr)) or \
                 any(isinstance(x, ast.Subscript) and not isinstance(x.slice, ast.Constant) or isinstance(x, ast.IfExp)
                     for x in ast.walk(vexpr))
